@@ -192,7 +192,7 @@ def gen(rnd: random.Random, opts: dict) -> Design:
         a, b2 = rnd.sample(keys, 2)
         if D.deford[a] > D.deford[b2]:
             a, b2 = b2, a
-        D.sb.append((a, b2, rnd.random() < 0.4))
+        D.sb.append((a, b2, rnd.random() < opts.get("p_rd", 0.4)))
     if rnd.random() < opts.get("p_mixed", 0.25):
         add_mixed_chain_pattern(D, rnd)
         keys = list(D.bodies)
@@ -721,6 +721,32 @@ def run_design(rec: Rec, D, A, rnd: random.Random, case: dict, sched: str = "eag
         aliases_of[j].append(al)
     prev = {"sync": {}}
     log = collections.deque(maxlen=4)
+    comps = []  # scheduler components as lists of transaction keys (from the recording scheduler wrapper)
+    if sched == "rr":
+        key_of = {id(e.objs[k]._body): k for k in T}
+        for method_map, gr, cc, porder in recorder.calls:
+            comp = [key_of[id(t)] for t in cc if id(t) in key_of]
+            # the property quantifies over components without internal ready dependencies
+            internal = any(d in comp for t in comp for d in A.deps[t]) or any(D.bodies[t].rdy_or in comp for t in comp if D.bodies[t].rdy_or) \
+                or any(d in comp for t in comp for c in A.ch[t] for d in A.deps[("m", c[-1].callee)]) \
+                or any(D.bodies[("m", c[-1].callee)].rdy_or in comp for t in comp for c in A.ch[t])
+            comps.append((comp, internal))
+        ref_cc = set()
+        seen = set()
+        for t in T:
+            if t in seen:
+                continue
+            comp, q = set(), [t]
+            while q:
+                x = q.pop()
+                if x not in comp:
+                    comp.add(x)
+                    q.extend(A.conf[x])
+            seen |= comp
+            ref_cc.add(frozenset(comp))
+        if ref_cc != {frozenset(c) for c, _ in comps}:
+            rec.count("designs_where_scheduler_components_differ_from_reference_components")
+        rr_wait = collections.Counter()
 
     def evalpos(pos, bits, fsm_on, upto=0):
         ok = True
@@ -748,7 +774,7 @@ def run_design(rec: Rec, D, A, rnd: random.Random, case: dict, sched: str = "eag
         pr = rnd.choice([0.2, 0.5, 0.9])
         for cyc, pv in enumerate(plan):
             if cyc % 25 == 0:
-                pr = rnd.choice([0.1, 0.5, 0.9, 0.97])
+                pr = rnd.choice([0.1, 0.5, 0.9, 0.97] + ([1.0, 1.0] if sched == "rr" else []))
             for i, s in enumerate(e.bits):
                 ctx.set(s, (pv >> i) & 1 if pv is not None else int(rnd.random() < pr))
             for s in e.ins:
@@ -924,9 +950,30 @@ def run_design(rec: Rec, D, A, rnd: random.Random, case: dict, sched: str = "eag
                                     rec.count("priority_high_side_blocked_by_third_party")
                                 rec.check("C08:low_priority_runs_only_if_high_priority_blocked_by_another", okp, case=case,
                                           detail=dict(det, high=str(th), low=str(tl)))
-            if sched == "eager":
-                for a, b2, rd in D.sb:
-                    pass  # schedule_before never blocks: covered by C07 (schedule_before pairs are not in the reference conflict relation)
+            for comp, internal in comps:
+                nrun = sum(1 for t in comp if run[t])
+                rec.check("C09:at_most_one_transaction_per_component_runs", nrun <= 1, case=case, detail=dict(det, component=[str(t) for t in comp]))
+                rec.state(f"rr|{len(comp)}|{''.join(str(int(bool(elig_s[t]))) for t in comp)}|{''.join(str(int(bool(run[t]))) for t in comp)}")
+                if internal:
+                    rec.count("rr_component_cycles_skipped_for_internal_ready_dependency")
+                    continue
+                anyreq = any(elig_s[t] for t in comp)
+                rec.check("C09:one_runs_whenever_some_transaction_of_the_component_is_enabled", nrun == 1, antecedent=anyreq, case=case,
+                          detail=dict(det, component=[str(t) for t in comp], enabled=[str(t) for t in comp if elig_s[t]]))
+                if len(comp) > 1:
+                    rec.count("rr_multi_transaction_component_cycles")
+                for t in comp:
+                    if elig_s[t]:
+                        if run[t]:
+                            if rr_wait[t] == len(comp) - 1 and len(comp) > 1:
+                                rec.count("rr_requesters_served_after_maximal_wait")
+                            rr_wait[t] = 0
+                        else:
+                            rr_wait[t] += 1
+                            rec.check("C09:continuously_enabled_transaction_granted_within_component_size_cycles", rr_wait[t] <= len(comp) - 1, case=case,
+                                      detail=dict(det, transaction=str(t), waited=rr_wait[t], component_size=len(comp)))
+                    else:
+                        rr_wait[t] = 0
             await ctx.tick()
 
     sim.add_testbench(tb)
